@@ -33,6 +33,8 @@ var flatOverrides = [][2]string{
 	{"hash", "h_"}, {"min", "least"}, {"max", "most"}, {"all", "every"}, {"any", "some"}, {"do", "par"}, {"join", "flatten"},
 	{"fmap", "mapf"}, {"filter", "keep"}, {"takewhile", "tw"}, {"apply", "app"}, {"toerror", "mustOk"}, {"pipeline", "pipe"}, {"dup", "tee"},
 	{"uncurry", "flat"}, {"curry", "spice"},
+	// a prefix is only the start of an identifier: a Go keyword is a legal one (dropped again when a call of the plugin has no suffix)
+	{"fmap", "map"}, {"filter", "select"}, {"any", "go"}, {"all", "range"},
 }
 
 // DrawPrefixes sets w.GlobalPfx / w.Prefix from the tape (nothing when the
@@ -76,6 +78,41 @@ func (w *World) DrawPrefixes(t *tape.Tape) {
 		}
 	}
 	w.PrefixRot = t.Intn(3)
+	// an override that is a keyword cannot be used for a call without a suffix (the call would be the keyword itself)
+	for pl, px := range w.Prefix {
+		switch px {
+		case "map", "select", "go", "range":
+			bare := false
+			var visit func(c *Call)
+			visit = func(c *Call) {
+				if c == nil {
+					return
+				}
+				if c.Plugin == pl && c.Suffix == "" {
+					bare = true
+				}
+				for _, a := range c.Args {
+					visit(a.Nested)
+				}
+				if c.Curried != nil {
+					visit(c.Curried.Nested)
+				}
+				visit(c.Pair)
+			}
+			for _, c := range w.Calls {
+				visit(c)
+			}
+			for _, c := range w.QCalls {
+				visit(c)
+			}
+			if bare {
+				delete(w.Prefix, pl)
+			}
+		}
+	}
+	if len(w.Prefix) == 0 {
+		w.Prefix = nil
+	}
 	if len(w.Prefix) == 0 {
 		w.Prefix = nil
 	}
@@ -159,6 +196,7 @@ func (w *World) retargetUserFuncs() {
 				if rest == "" || rest == "_" || rest == "_1" {
 					n := w.prefixOf(pl) + rest
 					u.Text = strings.ReplaceAll(u.Text, u.Name+"(", n+"(")
+					u.Text = strings.ReplaceAll(u.Text, "var "+u.Name+" =", "var "+n+" =")
 					u.Name = n
 				}
 				break
